@@ -34,6 +34,9 @@ def gen_case(rng):
         pos = 0.0
     else:
         pos = float(rng.randint(1, 500)) if (integer or rng.random() < 0.5) else rng.uniform(0.1, 500)
+        if integer and rng.random() < 0.15:
+            # a non-whole holding under the whole-unit flag: positions taken by quantity (transact) are never rounded
+            pos = rng.choice([rng.randint(0, 40) + 0.5, rng.randint(0, 9) + 0.25, rng.uniform(0.1, 60)])
         if pk == "short":
             pos = -pos
     unit = price * mult
@@ -163,6 +166,8 @@ def run_case(ctx, bt, case, collect):
         return
     # nothing traded, nothing charged (a commission function may well quote a minimum fee for q = 0: it is not called)
     cost = 0.0 if q == 0 else cost_of(case, q, price)
+    if case["integer"] and pos0 != int(pos0) and abs(q - round(q)) <= 1e-9 * max(1.0, abs(pos0), abs(q)):
+        q = float(round(q))       # the traded quantity is the difference of two non-whole positions: remove the subtraction's rounding noise
     if case["integer"] and q != int(q):
         ctx.violation("C05/fractional-quantity", "integer positions but traded %r" % q, rd)
         return
